@@ -10,22 +10,7 @@ import (
 	"github.com/buildbarn/bb-storage/pkg/blobstore/sharding"
 
 	"verif/lib/gen"
-	"verif/lib/run"
 )
-
-// caseRng derives the case's generator from c.Rng (itself a function of seed,
-// worker, group and case index) and re-keys it with a MIXED function of the
-// same identity. Reason: lib/run seeds c.Rng with gen.New(seed, worker, group,
-// index), and gen.New only XORs each value into the state and adds a constant,
-// so (worker 0, case 1) and (worker 1, case 0) - and most other pairs with
-// small indices - receive the SAME stream: the eight workers would run nearly
-// identical case lists (observed: 146203 of 146203 distinct keys of worker 0
-// also produced by worker 1). The derived generator is still a pure function
-// of (seed, worker, group, index), so replay of a single case is exact.
-func caseRng(w *run.Worker, c *run.Case) *gen.Rng {
-	id := mix(w.Seed*0x9e3779b97f4a7c15 ^ mix(uint64(w.Index)+1)<<1 ^ mix(uint64(c.Index)+0x51ed27)<<2)
-	return gen.New(c.Rng.Uint64(), id, mix(id^uint64(len(c.Group))))
-}
 
 // ---------------------------------------------------------------------------
 // Shard map generation.
